@@ -16,6 +16,7 @@ def main():
     mod = importlib.import_module("props." + prop.lower())
     if tier == "--replay":
         return mod.replay(sys.argv[3])
+    os.environ["VERIF_TIER_ACTIVE"] = tier
     res = common.Result(prop, tier, seed)
     try:
         b = common.ensure_build()
